@@ -140,6 +140,15 @@ def sortedByKeyM {α : Type} (f : α → M Nat) (r : Bool) (xs : List α) : M (L
   let keys ← xs.mapM f
   pure (((keys.zip xs).foldr (insertByKey r) []).map (·.2))
 
+/-- `[x for x in xs if c(x)]` where `c(x)` may raise: the conditions are evaluated in list order, the first exception propagates
+    (nothing is returned), otherwise the elements whose condition is true, in order -/
+def filterM {α : Type} (c : α → M Bool) : List α → M (List α)
+  | [] => pure []
+  | x :: xs => do
+    let b ← c x
+    let r ← filterM c xs
+    pure (if b then x :: r else r)
+
 /-- divisor of `//` and `%`: zero raises `ZeroDivisionError` -/
 def nonZero (n : Nat) : M Nat := if n = 0 then throw .zeroDivisionError else pure n
 def nonZeroZ (n : Int) : M Int := if n = 0 then throw .zeroDivisionError else pure n
